@@ -54,7 +54,7 @@ type tcase struct {
 var concrete = map[string]string{
 	"dq": "\"", "sq": "'", "bs": "\\", "sl": "/", "st": "*",
 	"lp": "(", "rp": ")", "lb": "[", "rb": "]", "lc": "{", "rc": "}", "lt": "<", "gt": ">",
-	"sc": ";", "eq": "=", "d0": "0", "d8": "8", "x": "x", "e": "e", "b": "b", "dot": ".", "a": "a",
+	"sc": ";", "eq": "=", "d0": "0", "d1": "1", "X": "X", "E": "E", "p": "p", "d8": "8", "x": "x", "e": "e", "b": "b", "dot": ".", "a": "a",
 	"mi": "-", "pl": "+", "us": "_", "co": ",", "cl": ":", "qm": "?", "am": "&", "pi": "|", "ex": "!",
 	"lf": "\n", "tab": "\t", "sp": " ", "cr": "\r", "nul": "\x00", "inv": "\x80", "u2": "\u00e9",
 	"u3": "\u20ac", "bom": "\ufeff", "hash": "#", "n": "n", "u": "u",
